@@ -340,7 +340,7 @@ func c18Run(c *Ctx) {
 	var active []string
 	pi2 := safely(func() {
 		b2.P.ParseArgs(append([]string{}, prefix...))
-		for x := b2.P.Command.Active; x != nil; x = x.Active {
+		for x := b2.P.Command.Active; x != nil && len(active) < 64; x = x.Active {
 			active = append(active, x.Name)
 		}
 	})
